@@ -19,4 +19,22 @@ CHECKS = {
         "note": "Trusts the independent reference semantics in vlib/gen_bcs.py; singular Robin conditions (|2+gamma*dx|<0.1) excluded; corners not judged; NUMBA_DISABLE_JIT breadth executes the same source as the compiled setter, real JIT only for a sample.",
         "technique": "property-based testing with a validity-predicate oracle computed from a semantic input description (Hypothesis)",
     },
+    "C03": {
+        "text": "Differential search: for generated (grid, operator with options, boundary-condition assignment in any accepted format, real/complex data, time) the result of field.apply_operator is compared with grid.make_operator on the numba backend (with and without out, out identity), the scipy backend where registered, set_ghost_cells + make_operator_no_bc, compiled vs interpreted ghost-cell setter on the padded array, the sparse-matrix representation of the Laplacian of every grid class (M u + v), and parallel kernels under several thread counts vs serial kernels (parallel target option verified). Interpreted-source breadth plus real-JIT samples (overload bodies, prange). Exploration: held on all generated cases.",
+        "ref": "DESIGN.md section 4, C03",
+        "note": "Agreement is judged with a condition-aware tolerance 1e-12*max|u|*sum|w|; thread interleavings cannot be controlled (counts and repetitions sampled); normal_* conditions only with rank-reducing operators; matrix route for constant first/second-order conditions.",
+        "technique": "differential property-based testing across implementation routes (Hypothesis)",
+    },
+    "C15": {
+        "text": "Rule-based state machine over a population of field handles (fields, collections, component views, copies, slices, append results, arithmetic and operator results) against a shadow-memory reference model: after every operation each handle's padded array equals the model (ghost cells included), np.shares_memory of every pair equals the model's alias relation, data is a view of the padded array, operands are unchanged. Exploration: held on all generated histories.",
+        "ref": "DESIGN.md section 4, C15",
+        "note": "Trusts the shadow-memory model (aliasing asserted only where documented); stale collections (member re-linked elsewhere, a documented restriction) are retired instead of judged; values of interpolation/smoothing/operator results are adopted (only their memory relations are judged).",
+        "technique": "stateful model-based property testing (Hypothesis RuleBasedStateMachine) with a shadow-memory model",
+    },
+    "C20": {
+        "text": "Rule-based state machine over memory storages (all write modes and construction routes; start_writing/append/end_writing/clear/read/mutate/extract_field/extract_time_range/view_field/copy/apply, derived storages tracked too) against a list model of (time, data copy, template); after every rule every storage is read back in full and compared, documented rejections must raise and leave the state unchanged, reads are fresh objects. A second sub-check drives storages through short solves and compares with a parallel callback tracker. Exploration: held on all generated histories.",
+        "ref": "DESIGN.md section 4, C20",
+        "note": "Trusts the list model written from the documented write-mode semantics; extract_time_range/view_field are documented as possible views, independence is not asserted there; one dtype per history.",
+        "technique": "stateful model-based property testing (Hypothesis RuleBasedStateMachine) against a list model",
+    },
 }
